@@ -132,6 +132,7 @@ class SolvePDE(Ob):
     props = ('C04', 'C12')
     pattern = None
     dirty = False
+    dirty_face = 'left'
     claimed_scale = 2.0       # the factor of the scaled term in the claimed row identity (a canary claims 1.0)
 
     def parts(self, w):
@@ -151,9 +152,13 @@ class SolvePDE(Ob):
         Mt, Rt = src_.transientTerm(phi, dt, 1.0)
         terms = [(Mt, Rt), -z['Md'], z['Mu'], 2.0 * z['Ms'], z['Rg'], -z['Rg']]
         if self.dirty:
-            # pending edit of a boundary coefficient: the cached boundary term must be rebuilt before use
-            phi.BCs.left.c = w.array('newc', tuple(phi.BCs.left.c.shape))
-            coefs[(0, 0, 'c')] = phi.BCs.left.c
+            # pending edit of a boundary coefficient (of ONE face, after reaching a clean state): the cached boundary
+            # term must be rebuilt before use
+            phi.apply_BCs()
+            ax, sd = [(a_, s_) for a_ in range(3) for s_ in (0, 1) if SIDES[a_][s_] == self.dirty_face][0]
+            face = getattr(phi.BCs, self.dirty_face)
+            face.c = w.array('newc', tuple(face.c.shape))
+            coefs[(ax, sd, 'c')] = face.c
         Mbc, RHSbc = bnd.boundaryConditionsTerm(phi.BCs)
         rec = {}
 
@@ -213,6 +218,24 @@ class SolvePDEDirty(SolvePDE):
     name = 'solvePDE/system_is_bc_plus_terms(after a BC edit)'
     props = ('C04', 'C09')
     dirty = True
+    dirty_face = 'left'
+
+
+def _mk_dirty():
+    for a_ in range(3):
+        for s_ in (0, 1):
+            f = SIDES[a_][s_]
+            if f == 'left':
+                continue
+            cn = 'SolvePDEDirty_' + f
+            cls = type(cn, (SolvePDEDirty,), dict(dirty_face=f, name='solvePDE/system_is_bc_plus_terms(after an edit of BCs.%s only)' % f,
+                                                  grids=tuple(g for g in ALL if GRIDS[g]['nd'] > a_),
+                                                  quick=(f in ('back', 'front', 'top'))))
+            cls.__module__ = __name__
+            globals()[cn] = cls
+
+
+_mk_dirty()
 
 
 class SolvePDEPeriodic(SolvePDE):
